@@ -742,6 +742,7 @@ func init() {
 			return []drv.Part{
 				{Name: "send", Body: sendBody(tier), MaxDev: 0, CutDepth: 3, Budget: b, Env: env},
 				{Name: "open-refused", Body: openRefusedBody, MaxDev: 1, Workers: 2, Budget: b, Env: env},
+				{Name: "open-then-receive", Desc: "we open, the accepting peer sends right behind its answer", Body: openThenReceiveBody, MaxDev: pre, ShardLevels: 2, Budget: b, Env: env},
 				{Name: "receive", Body: receiveBody, MaxDev: pre, ShardLevels: 3, Budget: b, Env: env},
 				{Name: "bad-packets", Body: badPacketsBody(nb), MaxDev: 0, CutDepth: 3, Budget: b, Env: env},
 				{Name: "closed-locally", Body: localCloseBody, MaxDev: 1, Workers: 2, Budget: b, Env: env},
@@ -749,7 +750,7 @@ func init() {
 				{Name: "peer-close", Desc: "the peer closes while written bytes are still buffered locally: flushed from inside the close handler", Body: peerCloseBody, MaxDev: 1, Workers: 4, Budget: b, Env: env},
 				{Name: "expect", Desc: "two Expect calls for the same stream (take-over), then the peer opens it", Body: expectBody, MaxDev: pre, ShardLevels: 2, Budget: b, Env: env},
 				{Name: "wrap", Desc: "65541 one-byte packets in each direction and carrier: the sequence number wraps around", Body: wrapBody, MaxDev: 0, ShardLevels: 1, Workers: 4, Budget: b, Env: env},
-				drv.RacePart(4*pre, pre, b, openRefusedBody, receiveBody, badPacketsBody(nb), localCloseBody, closeDrainBody, peerCloseBody, expectBody),
+				drv.RacePart(4*pre, pre, b, openRefusedBody, openThenReceiveBody, receiveBody, badPacketsBody(nb), localCloseBody, closeDrainBody, peerCloseBody, expectBody),
 			}
 		},
 	})
